@@ -217,8 +217,9 @@ type FS struct {
 	// number of bytes that are actually written (0 <= n <= len); the write then fails with ENOSPC if n < len.
 	ShortWrite func(path string, n int) int
 	// Delay, when set, makes an operation slow: it is called WITHOUT the FS lock, before the operation takes effect,
-	// and the calling goroutine sleeps (virtual time) for the returned duration. Only "sync" consults it: a stalled
-	// fsync is the window in which a file is already visible but its writer has not gone on yet.
+	// and the calling goroutine sleeps (virtual time) for the returned duration. "sync" and "write" consult it: a
+	// stalled fsync is the window in which a file is already visible but its writer has not gone on yet, a stalled
+	// write the one in which bytes were taken from the source but are not in the file.
 	Delay func(op string, path string) time.Duration
 	// OnJournal is called (with the FS lock held; must not call back into the FS) after op idx was appended.
 	OnJournal func(idx int, op *Op)
@@ -924,6 +925,11 @@ func (h *File) writeAt(b []byte, off int64, op string) (int, error) {
 func (h *File) Write(b []byte) (int, error) {
 	if err := h.check("write"); err != nil {
 		return 0, err
+	}
+	if d := h.fs.Delay; d != nil {
+		if dd := d("write", h.path); dd > 0 {
+			time.Sleep(dd)
+		}
 	}
 	h.fs.mu.Lock()
 	defer h.fs.mu.Unlock()
